@@ -497,3 +497,10 @@ fn rx_death_path_wakes_reader() {
 pub fn verif_rx_vsock_closed(urx: &UserRx) -> bool {
     urx.shared.locked.lock().vsock_closed
 }
+
+pub fn verif_set_reader_waker(urx: &UserRx, w: std::task::Waker) {
+    urx.shared.locked.lock().reader_waker = Some(w);
+}
+pub fn verif_queue_items(urx: &UserRx) -> usize {
+    urx.shared.locked.lock().queue.verif_items().len()
+}
